@@ -125,3 +125,42 @@ def check_sched(chk, traces):
     if rc != 0:
         chk.fail_no_input("the extracted scheduler model and the Coq definition disagree on an observed trace (extraction or driver defect): %s" % (o + e).strip()[-300:],
                           {"theorem": "extraction cross-check (scheduler)", "file": path, "log": (o + e)[-2000:]})
+
+
+def vflow_term(line):
+    """'P 0 1 | R 2 | T 0 1 - 0 | ...' (validator format: ins outs pred invoke) -> ValidateModel.flow"""
+    params, results, tasks = [], [], []
+    f = lambda x: [] if x in ("-", "_") else x.split(",")
+    for part in [p.strip() for p in line.split("|")]:
+        toks = part.split()
+        if not toks:
+            continue
+        if toks[0] == "P":
+            params = toks[1:]
+        elif toks[0] == "R":
+            results = toks[1:]
+        elif toks[0] == "T":
+            ins, outs, pr, inv = toks[1:5]
+            pred = "None" if pr == "-" else "Some %s" % coq_list(f(pr))
+            tasks.append("Build_task %s %s (%s) %s" % (coq_list(f(ins)), coq_list(f(outs)), pred, "true" if inv == "1" else "false"))
+    return "{| fparams := %s; fresults := %s; ftasks := [%s] |}" % (coq_list(params), coq_list(results), "; ".join(tasks))
+
+
+def check_validate(chk, cases):
+    """cases: list of (validator flow line, 'ACCEPT'/'REJECT' as printed by the extracted binary, wf flag)"""
+    d = os.path.join(common.CACHE, "coqcases")
+    os.makedirs(d, exist_ok=True)
+    L = ["From CffVerif Require Import ValidateModel.", ""]
+    for i, (line, verdict, wf) in enumerate(cases):
+        L.append("Example v%d : (accepts %s, wf_b %s) = (%s, %s)." % (i, vflow_term(line), vflow_term(line),
+                 "true" if verdict == "ACCEPT" else "false", "true" if wf else "false"))
+        L.append("Proof. vm_compute. reflexivity. Qed.")
+    path = os.path.join(d, "validate_%s.v" % chk.pid)
+    open(path, "w").write("\n".join(L) + "\n")
+    rc, o, e = common.run("timeout 600 coqc -Q %s CffVerif %s" % (common.COQ, path), cwd=d, check=False, timeout=700)
+    chk.cov.setdefault("correspondence", {})["extraction_cross_check"] = {
+        "kind": "verdicts of the extracted validator re-computed inside Coq (accepts, wf_b by vm_compute)", "cases": len(cases), "ok": rc == 0}
+    chk.count(len(cases))
+    if rc != 0:
+        chk.fail_no_input("the extracted validator and the Coq definition disagree on a flow (extraction or driver defect): %s" % (o + e).strip()[-300:],
+                          {"theorem": "extraction cross-check (validator)", "file": path, "log": (o + e)[-2000:]})
